@@ -1,6 +1,6 @@
 (* Properties/C03.v — Every eligible target ends up scraped by exactly one shard. *)
 From KV Require Import Base.Util Base.AMap Base.Sched Gen.Consts Model.Coordinator Model.CoordCheck Model.Sidecar Model.World
-                       Proofs.CoordBasics Proofs.CoordC01 Proofs.WorldProofs Proofs.CoordStable.
+                       Proofs.CoordBasics Proofs.CoordC01 Proofs.WorldProofs Proofs.CoordStable Proofs.WorldNoGap.
 Local Open Scope list_scope.
 Local Open Scope Z_scope.
 
@@ -117,6 +117,18 @@ Theorem C03_settled_updates_repeat_the_assignment : forall o i sch k, settled o 
   forall x, In x (intended i ob k) <-> In x (map (fun kv => (fst kv, c_state (snd kv))) (reported i k)).
 Proof. exact settled_posts_repeat. Qed.
 Print Assumptions C03_settled_updates_repeat_the_assignment.
+
+(* ... and in the closed loop (World model: real sidecar semantics of a target update, StatefulSet following the scale
+   request): a fault-free cycle on a settled world leaves the number of shards and every sidecar's status map
+   (targets, states, counters, statistics) exactly as they were, whatever updates are still sent *)
+Theorem C03_settled_world_unchanged : forall o tru w sch,
+  wwf w -> settled o (cycle_input tru w no_faults) ->
+  let w' := model_cycle o tru w no_faults sch in
+  length (w_shards w') = length (w_shards w) /\
+  forall k h, (k < length (w_shards w))%nat ->
+    afind h (sc_status (ws_sc (nth k (w_shards w') dws))) = afind h (sc_status (ws_sc (nth k (w_shards w) dws))).
+Proof. exact settled_world_unchanged. Qed.
+Print Assumptions C03_settled_world_unchanged.
 
 (* non-vacuity: two in-sync shards, one target each, one discovered target that is too large for a shard *)
 Definition sx_stat (s t : Z) : cstat := {| c_state := Normal; c_health := Good; c_series := s; c_total := t; c_times := 7 |}.
